@@ -36,6 +36,7 @@ type Node struct {
 	snap  *world.Snap
 	W     *world.World
 	Aux   map[string]any // per-node scratch for oracles (not part of identity)
+	Seed  []world.Op     // the seed history this node descends from (for history-dependent classifiers; not part of identity)
 }
 
 // Snap returns the (cached) decoded snapshot of the node.
@@ -234,7 +235,7 @@ func (r *runner) record(f Failure, seed int, trace []world.Op) {
 // step executes op from n and returns the successor node (nil if not to be expanded).
 func (r *runner) step(w *world.World, n *Node, op world.Op, seed int, cnt *Counters, check bool) (*Node, world.Result) {
 	res := w.Exec(n.Ctx, op)
-	next := &Node{Ctx: res.Ctx, W: w, Depth: n.Depth + 1, Used: append([]int{}, n.Used...)}
+	next := &Node{Ctx: res.Ctx, W: w, Depth: n.Depth + 1, Used: append([]int{}, n.Used...), Seed: n.Seed}
 	next.Trace = append(append(make([]world.Op, 0, len(n.Trace)+1), n.Trace...), op)
 	if op.Class >= 0 && op.Class < len(next.Used) {
 		next.Used[op.Class]++
@@ -365,7 +366,13 @@ func (r *runner) buildSeed(w *world.World, si int, cnt *Counters, check bool) *N
 	}
 	n.Depth = 0
 	n.Trace = nil
+	n.Seed = r.sc.Seeds[si]
 	return n
+}
+
+// History is everything that was executed to reach n: the seed history followed by the explored operations.
+func (n *Node) History() []world.Op {
+	return append(append([]world.Op{}, n.Seed...), n.Trace...)
 }
 
 type item struct {
@@ -551,7 +558,7 @@ func Replay(sc *Scenario, w *world.World, seed int, ops []world.Op, verbose bool
 	}
 	for i, op := range ops {
 		res := w.Exec(n.Ctx, op)
-		next := &Node{Ctx: res.Ctx, W: w, Depth: n.Depth + 1, Used: append([]int{}, n.Used...)}
+		next := &Node{Ctx: res.Ctx, W: w, Depth: n.Depth + 1, Used: append([]int{}, n.Used...), Seed: n.Seed}
 		next.Trace = append(append([]world.Op{}, n.Trace...), op)
 		if n.Ref != nil {
 			next.Ref = n.Ref.Clone()
